@@ -22,8 +22,9 @@ CLAIMED = {
         ref='DESIGN.md §6 C12', technique='Coq proof (accept iff fits) + model/implementation correspondence by vm_compute'),
     'C07': dict(
         text='Coq model of the expression lexer (re.findall semantics of the token pattern), recursive-descent parser and '
-             'evaluator; theorems on byte extraction (all x, all n), truncating exact-rational division, rejection of unknown '
-             'labels and division by zero; tied to the code by differential execution on generated well-formed and malformed '
+             'evaluator; theorems: every expression tree is read back from its minimally parenthesised token sequence (precedence '
+             'and left associativity proved for all trees), byte extraction (all x, all n), truncating exact-rational division, '
+             'rejection of unknown labels and division by zero, lexer and parser fuel always sufficient; tied to the code by differential execution on generated well-formed and malformed '
              'expression texts (tokens and values).',
         ref='DESIGN.md §6 C07', technique='Coq proof over expression model + lexer/parser/evaluator correspondence by vm_compute'),
     'C08': dict(
@@ -34,7 +35,8 @@ CLAIMED = {
         ref='DESIGN.md §6 C08', technique='Coq refinement proof (flat stack machine -> block semantics) + correspondence by vm_compute'),
     'C09': dict(
         text='Theorems on the substitution model: whole-word replacement touches only word segments equal to the symbol, lines '
-             'without defined symbols are unchanged, duplicate definitions and direct self-reference are rejected; tied to the '
+             'without defined symbols are unchanged, duplicate definitions and direct self-reference are rejected, repeated '
+             'substitution always terminates (fuel |table|+1 proved sufficient); tied to the '
              'code by differential execution of Preprocessor.resolve_symbols on generated tables (chains, diamonds, cycles, '
              'prefix/suffix/infix names) and, for definition order, through the C08 file tie.',
         ref='DESIGN.md §6 C09', technique='Coq proof over substitution model + correspondence by vm_compute'),
@@ -74,9 +76,10 @@ CLAIMED = {
              'Tied to the code by differential runs of string directives (escapes, both quotes, all terminators) and whole programs.',
         ref='DESIGN.md §6 C11', technique='Coq proofs over data-directive model + string/whole-program correspondence'),
     'C10': dict(
-        text='Theorems: the bytes of an instruction sequence are the concatenation of its instructions\' bytes, each assembled at '
-             'the address where the previous one ends, and its size is the sum of their sizes (so a macro = its expansion); '
-             'placeholders that cannot be filled make the substitution fail. Tied to the code by generated instruction sets with '
+        text='Theorems: an invocation accepted by a macro variant (and none before it) whose placeholders can all be filled assembles '
+             'to exactly what its expanded statements assemble to, one after the other, and is not assembled at all if a placeholder '
+             'cannot be filled; the bytes of an instruction sequence are the concatenation of its instructions\' bytes, each '
+             'assembled at the address where the previous one ends, and its size is the sum of their sizes. Tied to the code by generated instruction sets with '
              'macros (variants, steps that are not whole bytes, relative operands, all three placeholder kinds) whose invocations '
              'are assembled by the real Assembler and by the matching model.',
         ref='DESIGN.md §6 C10', technique='Coq proofs over macro/sequence model + generated-ISA whole-program correspondence'),
@@ -88,8 +91,9 @@ CLAIMED = {
              'pairs, all operand types) assembled by the real Assembler and by the matching model.',
         ref='DESIGN.md §6 C13', technique='Coq proofs over operand-matching model + generated-ISA whole-program correspondence'),
     'C14': dict(
-        text='Partial. Theorems: the expression parser never exhausts its fuel; the image has exactly the window length (the '
-             'emission cannot spin); success is never reported for an unresolvable label, unknown mnemonic, statement no variant '
+        text='Partial. Theorems: the whole-program model answers assembled-or-rejected for every input (all functions total; the '
+             'fuel of lexer, parser, symbol substitution and include loader proved sufficient); the image has exactly the window '
+             'length (the emission cannot spin); success is never reported for an unresolvable label, unknown mnemonic, statement no variant '
              'accepts, or value that does not fit; an image exists only in a successful outcome (by the model\'s result type). '
              'Termination of the real process and file-level fail-closedness are observed: real CLI under a wall-clock limit on '
              'valid, faulty and garbled programs with a pre-seeded output file.',
@@ -111,7 +115,9 @@ CLAIMED = {
         note='Character-level decoding of the output text is done by harness decoders; Intel HEX text comes from the intelhex package.'),
     'C17': dict(
         text='Theorems on the reader: a file included twice, missing or ambiguous is rejected; after an include the includer\'s '
-             'region, zone, condition stack and mute counter are unchanged and the included lines are spliced in place; the '
+             'region, zone, condition stack and mute counter are unchanged; reading pre ++ include t ++ post equals reading pre, '
+             'then t\'s items in place under a fresh file-local state with the global state threaded through, then post; the '
+             'loader\'s fuel suffices; the '
              'included file starts in GLOBAL with a fresh file scope; lookups never cross files. Paste equivalence itself is checked '
              'as a relation on two implementation runs (split vs pasted text) for generated programs meeting the side conditions, '
              'plus the whole-program correspondence with nested includes and include faults.',
@@ -132,7 +138,7 @@ CLAIMED = {
              'the facts validation reads; tied by compiling with generated well-formed definitions, every fault of a 22-entry '
              'catalogue, and version triples whose numeric and textual orders differ (in process and through the command line).',
         ref='DESIGN.md §6 C19', technique='Coq proofs (validate <-> well_formed, version order) + accept/reject correspondence on generated definitions',
-        note='YAML text -> abstract definition and version text -> number list are harness code (trusted).'),
+        note='YAML text -> abstract definition is harness code (trusted); version text is parsed by the model.'),
     'C20': dict(
         text='Partial. Theorem: the alternation pattern the generator substitutes, searched in an identifier, matches iff the '
              'identifier is in the vocabulary (any vocabulary of word-character names, any identifier). Well-formedness of the '
